@@ -5,6 +5,7 @@ package parser
 
 import (
 	"fmt"
+	"strconv"
 	"strings"
 
 	goerrors "github.com/ajitpratap0/GoSQLX/pkg/errors"
@@ -983,9 +984,11 @@ func (p *Parser) parseSelectStatement() (ast.Statement, error) {
 			return nil, p.expectedError("integer for LIMIT")
 		}
 
-		// Convert string to int
-		firstVal := 0
-		_, _ = fmt.Sscanf(p.currentToken.Literal, "%d", &firstVal)
+		// Convert string to int: the whole literal must be an integer that fits
+		firstVal, err := strconv.Atoi(p.currentToken.Literal)
+		if err != nil {
+			return nil, p.expectedError("integer for LIMIT")
+		}
 		p.advance()
 
 		// MySQL-style LIMIT offset, count: LIMIT 10, 20
@@ -994,8 +997,10 @@ func (p *Parser) parseSelectStatement() (ast.Statement, error) {
 			if !p.isNumericLiteral() {
 				return nil, p.expectedError("integer for LIMIT count")
 			}
-			secondVal := 0
-			_, _ = fmt.Sscanf(p.currentToken.Literal, "%d", &secondVal)
+			secondVal, err := strconv.Atoi(p.currentToken.Literal)
+			if err != nil {
+				return nil, p.expectedError("integer for LIMIT count")
+			}
 			p.advance()
 			// In MySQL LIMIT offset, count: first is offset, second is count
 			selectStmt.Offset = &firstVal
@@ -1014,9 +1019,11 @@ func (p *Parser) parseSelectStatement() (ast.Statement, error) {
 			return nil, p.expectedError("integer for OFFSET")
 		}
 
-		// Convert string to int
-		offsetVal := 0
-		_, _ = fmt.Sscanf(p.currentToken.Literal, "%d", &offsetVal)
+		// Convert string to int: the whole literal must be an integer that fits
+		offsetVal, err := strconv.Atoi(p.currentToken.Literal)
+		if err != nil {
+			return nil, p.expectedError("integer for OFFSET")
+		}
 
 		// Add OFFSET to SELECT statement
 		selectStmt.Offset = &offsetVal
@@ -1227,8 +1234,10 @@ func (p *Parser) parseFetchClause() (*ast.FetchClause, error) {
 	}
 
 	// Convert string to int64
-	var fetchVal int64
-	_, _ = fmt.Sscanf(p.currentToken.Literal, "%d", &fetchVal)
+	fetchVal, err := strconv.ParseInt(p.currentToken.Literal, 10, 64)
+	if err != nil {
+		return nil, p.expectedError("integer for FETCH count")
+	}
 	fetchClause.FetchValue = &fetchVal
 	p.advance()
 
